@@ -25,6 +25,8 @@ type genOpts struct {
 	properSession bool
 	// attVariant: force this attestation variant (see attestations), 0 = any
 	attVariant int
+	// webService: the authority is always a did:web identity wrapping the key of principal 0
+	webService bool
 	// webAccount: the account is a did:web whose key the principal resolver knows
 	webAccount bool
 	// rsaServicePct: how often (%) the service's own key is an RSA key
@@ -143,7 +145,7 @@ func genWorld(r *rand.Rand, now int, o genOpts, class *string) *AWorld {
 		w.Principals[0].Kind = "rsa"
 	}
 	w.Authority, w.AuthorityKey = 0, 0
-	if r.Intn(5) == 0 { // service identified by did:web, holding the key of principal 0
+	if r.Intn(5) == 0 || o.webService { // service identified by did:web, holding the key of principal 0
 		w.Authority = b.addPrincipal("web", 0)
 	}
 	ns, verb := abilityNS[r.Intn(3)], abilityVerb[r.Intn(3)]
@@ -376,6 +378,8 @@ func (b *wb) attestations(id int, holder int, force int) []int {
 		d1 := b.addToken(AToken{Iss: acct2, Aud: holder, Caps: []ACap{{Can: "other/thing", With: fmt.Sprintf("@%d", acct2), Nb: [][2]int{}}}, Exp: b.exp(), Signer: -1, Intact: true, AlgOk: false})
 		out = append(out, d1, mk(w.Authority, w.AuthorityKey, holder, authDid, [][2]int{{0, d1}}, nil))
 		b.attFirst = true
+	case 16: // issued by the service's bare key, on that key's did:key: for a did:web service another principal and another resource
+		out = append(out, mk(w.AuthorityKey, w.AuthorityKey, holder, fmt.Sprintf("@%d", w.AuthorityKey), [][2]int{{0, id}}, nil))
 	case 15: // an expired attestation by the authority first, then a stranger's attestation of this very token
 		a := mk(w.Authority, w.AuthorityKey, holder, authDid, [][2]int{{0, id}}, nil)
 		e := w.Now - farFuture
@@ -473,6 +477,12 @@ func applyDefect(r *rand.Rand, w *AWorld, kind string) {
 		if len(t.Caps) > 0 {
 			c := &t.Caps[r.Intn(len(t.Caps))]
 			c.With = fmt.Sprintf("@%d", r.Intn(len(w.Principals)))
+		}
+	case "ucanscoped":
+		// a resource that merely resembles the proof wildcard `ucan:*`
+		if len(t.Caps) > 0 {
+			c := &t.Caps[r.Intn(len(t.Caps))]
+			c.With = []string{"ucan:./*", "ucan://x/*", "ucan:abc*", "ucan:*/", "ucan:**", "ucan:", "UCAN:*", "ucan:*x", "ucan:/*", "xucan:*"}[r.Intn(10)]
 		}
 	case "urlnear":
 		// a URL that differs from the granted / claimed one only in host case, a trailing slash or an escape
@@ -610,6 +620,11 @@ func applyDefect(r *rand.Rand, w *AWorld, kind string) {
 			if r.Intn(2) == 0 && t.Inline[k] {
 				// the first citation by link only, the later one embedded
 				t.Inline[k] = false
+				if t.Prfs[k] >= 0 && t.Prfs[k] < len(w.Tokens) && len(w.Tokens[t.Prfs[k]].Prfs) > 0 {
+					// ... or rather: as a copy that carries its root block but none of its own proofs
+					t.Bare = make([]bool, len(t.Prfs))
+					t.Bare[k] = true
+				}
 			}
 		}
 	case "permute":
@@ -623,6 +638,10 @@ func applyDefect(r *rand.Rand, w *AWorld, kind string) {
 				r.Shuffle(len(tt.Caps), func(a, b int) { tt.Caps[a], tt.Caps[b] = tt.Caps[b], tt.Caps[a] })
 			}
 		}
+	case "emptyattach":
+		// blocks of no bytes travel with one of the tokens (the invocation, a proof or a decoy)
+		addDecoys(r, w)
+		w.Tokens[r.Intn(len(w.Tokens))].EmptyAttach = true
 	case "decoys":
 		addDecoys(r, w)
 	case "deadend":
